@@ -1223,3 +1223,29 @@ M('C01-play-compression-arm-forgets-flag', 'C01', CONN,
   "        if packet.packet_name == \"set compression\":\n            self.connection.options.compression_threshold = packet.threshold\n            self.connection.options.compression_enabled = True",
   "        if packet.packet_name == \"set compression\":\n            self.connection.options.compression_threshold = packet.threshold",
   rule='R01.7')
+
+# ---------------------------------------------------------------- survivors
+# of the mechanical mutation run that turned out to be gaps (DESIGN 10.8)
+M('C12-pop-returns-false', 'C12', CONN,
+  "            self._write_packet(self._outgoing_packet_queue.popleft())\n            return True",
+  "            self._write_packet(self._outgoing_packet_queue.popleft())\n            return False",
+  rule='R12.3')
+M('C10-match-read-before-bound', 'C10', CONN,
+  "            match = re.match(r\"Outdated (client! Please use|server!\"\n                             r\" I'm still on) (?P<ver>\\S+)$\", msg)\n            if match:\n                ver = match.group('ver')\n                self.connection._version_mismatch(server_version=ver)",
+  "            if match:\n                ver = match.group('ver')\n                self.connection._version_mismatch(server_version=ver)\n            match = re.match(r\"Outdated (client! Please use|server!\"\n                             r\" I'm still on) (?P<ver>\\S+)$\", msg)",
+  rule='R10.5')
+M('C02-angle-wrap-359', 'C02', BASIC,
+  "UnsignedByte.send(round(256 * ((value % 360) / 360)) % 256, socket)",
+  "UnsignedByte.send(round(256 * ((value % 359) / 360)) % 256, socket)", rule='R02.6')
+M('C02-angle-wrap-255', 'C02', BASIC,
+  "UnsignedByte.send(round(256 * ((value % 360) / 360)) % 256, socket)",
+  "UnsignedByte.send(round(256 * ((value % 360) / 360)) % 255, socket)", rule='R02.6')
+M('C05-fixedpoint-args-swapped', 'C05', CB_PLAY,
+  "        delta_type = FixedPoint(Short, 12) \\", "        delta_type = FixedPoint(12, Short) \\", rule='R05.2')
+M('C05-send-args-swapped', 'C05', MAP,
+  "            Boolean.send(self.is_locked, packet_buffer)",
+  "            Boolean.send(packet_buffer, self.is_locked)", rule='R05.9s')
+M('C20-alias-args-swapped', 'C20', SB_PLAY,
+  "    position_and_look = multi_attribute_alias(\n        PositionAndLook, 'x', 'feet_y', 'z', 'yaw', 'pitch')",
+  "    position_and_look = multi_attribute_alias(\n        'x', PositionAndLook, 'feet_y', 'z', 'yaw', 'pitch')",
+  rule='R20.6')
